@@ -29,8 +29,35 @@ class C47(S4UCheck):
                    'asks for balance, which an actor killed inside an operation cannot provide']
     budgets = {'quick': dict(runs=1500, wall=50), 'thorough': dict(runs=40000, wall=800)}
 
+    def gen_neardates(self, seed, r):
+        """resource-utilisation events are written with the date of the last rate change, i.e. in the past: activities
+        that end a fraction of a microsecond (the resolution of the printed dates) after another one starts"""
+        import gen
+        nh = r.randint(2, 3)
+        plan = gen.base_plan(seed, nhosts=nh, rng=r)
+        plan['source'] = 'neardates'
+        plan['class'] = 'neardates'
+        for i in range(r.randint(2, 4)):
+            h = 'h%d' % (i % nh)
+            base = r.randint(1, 3)
+            ops = []
+            if r.chance(0.5):
+                ops.append(['sleep', float(base)])
+                ops.append(['exec', r.randint(1, 3) * 1e9])
+            else:
+                # ends k/10 microseconds after the date `base`
+                ops.append(['exec', base * 1e9 + r.randint(1, 19) * 50.0])
+                if r.chance(0.5):
+                    ops.append(['exec', r.randint(1, 2) * 1e9])
+            plan['actors'].append(dict(id='a%d' % i, host=h, ops=ops))
+        plan['trace_opts'] = sorted(set(['tracing/uncategorized:yes'] + r.sample(
+            ['tracing/platform:yes', 'tracing/categorized:yes', 'tracing/platform/topology:no'], r.randint(0, 2))))
+        return plan
+
     def gen(self, seed, tier):
         r = Rng(seed, 'c47')
+        if r.chance(0.15):
+            return self.gen_neardates(seed, r)
         src = r.choice(SOURCES)
         plan = importlib.import_module(src).CHECK.gen(seed, tier)
         plan['source'] = src
